@@ -8,6 +8,7 @@ import (
 	"os"
 	"os/exec"
 	"path/filepath"
+	"regexp"
 	"runtime"
 	"strconv"
 	"strings"
@@ -19,7 +20,11 @@ import (
 	"verif/harness/internal/rng"
 )
 
-func init() { Registry["C12"] = runC12; Registry["C12child"] = runC12Child }
+func init() {
+	Registry["C12"] = runC12
+	Registry["C12child"] = runC12Child
+	Registry["C12plain"] = runC12Plain
+}
 
 // the harness source directory and the model driver, relative to the running harness binary
 // (<verif>/harness/bin/harness), so that a copy of /verif checks the tree it was pointed at
@@ -290,11 +295,83 @@ func c12Env(extra ...string) []string {
 	return append(env, extra...)
 }
 
+// runC12Plain is the workload of family concurrent-equals-sequential, run in a process of its own: unsynchronised
+// access to shared memory can end in a fatal runtime error (concurrent map read and map write) that no recover
+// catches, and that outcome must be reported with its input, not lose the run.
+func runC12Plain(c *Ctx) error {
+	fam := c.Rep.Family("concurrent-equals-sequential", "child process")
+	return c12Workload(c, fam, c.R.Fork("c12-inproc"), c12EnvInt("C12_CONFIGS", 6), c12EnvInt("C12_ROUNDS", 8))
+}
+
+var c12Fatal = regexp.MustCompile(`(?m)^(fatal error: .*|panic: .*)$`)
+
 func runC12(c *Ctx) error {
-	// (1) in process, without the race detector
-	fam := c.Rep.Family("concurrent-equals-sequential", "in process (no race detector): generated configurations x rounds; variant A: the five formats concurrently from one parsed configuration (each goroutine its own Get/WithDefaults/Package); variant B: 2..4 goroutines, each parsing its own configuration and packaging all formats; random start offsets 0..300us, GOMAXPROCS in {2,4,16}; every result byte-compared with the result of five sequential packagings of a freshly parsed configuration; non-trivial = every compared package")
-	if err := c12Workload(c, fam, c.R.Fork("c12-inproc"), c.N(6, 40), c.N(8, 25)); err != nil {
-		return err
+	// (1) without the race detector, in a child process of this very binary
+	fam := c.Rep.Family("concurrent-equals-sequential", "in a child process of the harness (no race detector; a fatal runtime error of the child - concurrent map access, say - is a finding with the child's seed as replay): generated configurations x rounds; variant A: the five formats concurrently from one parsed configuration (each goroutine its own Get/WithDefaults/Package); variant B: 2..4 goroutines, each parsing its own configuration and packaging all formats; random start offsets 0..300us, GOMAXPROCS in {2,4,16}; every result byte-compared with the result of five sequential packagings of a freshly parsed configuration; non-trivial = every compared package")
+	{
+		self, err := os.Executable()
+		if err != nil {
+			return err
+		}
+		childOut := filepath.Join(c.Tmp, "plain-child.json")
+		ctxP, cancelP := context.WithTimeout(context.Background(), time.Duration(c.N(8, 40))*time.Minute)
+		defer cancelP()
+		run := exec.CommandContext(ctxP, self, "-prop", "C12plain", "-tier", c.Tier, "-seed", strconv.FormatUint(c.Seed, 10),
+			"-out", childOut, "-driver", c12Driver, "-replays", filepath.Join(c.Tmp, "plain-child-replays"), "-repo", c.Repo)
+		run.Env = c12Env(fmt.Sprintf("C12_CONFIGS=%d", c.N(6, 40)), fmt.Sprintf("C12_ROUNDS=%d", c.N(8, 25)))
+		var stderr bytes.Buffer
+		run.Stderr = &stderr
+		runErr := run.Run()
+		how := "harness -prop C12plain -tier " + c.Tier + " -seed " + strconv.FormatUint(c.Seed, 10)
+		if runErr != nil {
+			msg := stderr.String()
+			head := "the child process ended abnormally: " + runErr.Error()
+			if m := c12Fatal.FindString(msg); m != "" {
+				head = m
+			}
+			// the first nfpm frame of the crashing goroutine names the place
+			place := ""
+			for _, ln := range strings.Split(msg, "\n") {
+				if strings.Contains(ln, c12NfpmPath) && !strings.Contains(ln, "verif/harness") && strings.Contains(ln, "(") {
+					place = c12ShortFunc(strings.SplitN(strings.TrimSpace(ln), "(", 2)[0])
+					break
+				}
+			}
+			tail := msg
+			if len(tail) > 3000 {
+				tail = tail[:3000]
+			}
+			c.Rep.Find(report.Finding{Property: "C12", Family: "concurrent-equals-sequential", Shape: "process-crash:" + place,
+				What:  "packaging concurrently brought the process down: " + head,
+				Input: map[string]any{"how": how, "stderr_head": tail}})
+		}
+		if b, err := os.ReadFile(childOut); err == nil {
+			var child report.Report
+			if json.Unmarshal(b, &child) == nil {
+				for _, cf := range child.Families {
+					fam.Evaluations += cf.Evaluations
+					fam.Nontrivial += cf.Nontrivial
+					for k, v := range cf.Distribution {
+						fam.Distribution[k] += v
+					}
+					for _, s := range cf.Samples {
+						fam.Sample(s)
+					}
+				}
+				for _, f := range child.Findings {
+					f.Replay = ""
+					c.Rep.Find(f)
+				}
+				for _, d := range child.Disagreements {
+					c.Rep.Disagree(d)
+				}
+				for _, n := range child.Notes {
+					c.Rep.Note("concurrent-equals-sequential child: %s", n)
+				}
+			}
+		} else if runErr == nil {
+			c.Rep.Note("concurrent-equals-sequential child wrote no report: %v", err)
+		}
 	}
 
 	// (2) the same workload in a build with the race detector
